@@ -16,7 +16,7 @@ from pyvc import sym
 from pyvc.sym import lift, cfrac_eq, frac_eq
 from pyvc.interp import PyRaise, SObj, _dft_matrix
 from pyvc.oblig import obligation, verify, bounded, Goal, merge
-from .common import stable_rng, quick
+from .common import stable_rng, quick, Frame
 from .C08 import _cmat
 from .C20 import _meq
 
@@ -177,6 +177,8 @@ def ob_mimo(switched, profile, ants="1x2", form="2d"):
 
 SELECTIONS = {"all": None, "list": [0, 2, 3], "array": "np[3,1]", "slice_step_divides": slice(0, 4, 2), "slice_step_not_dividing": slice(0, 4, 3),
               "slice_open": slice(1, None, None),
+              # selections with exactly fft_size entries that are NOT 'all carriers in natural order'
+              "perm_all": "np[2,0,3,1]", "slice_reversed": slice(None, None, -1), "repeats_full_length": [1, 1, 2, 3],
               # fft_size 8 (DFT contract with h = sqrt(1/2))
               "fft8_all": None, "fft8_slice_step3": slice(1, 8, 3), "fft8_array": "np[7,2,5]"}
 
@@ -191,7 +193,7 @@ def ob_freq(sel):
         from pyphysim.channels import fading
         selection = SELECTIONS[sel]
         if isinstance(selection, str):
-            selection = np.array([3, 1]) if selection == "np[3,1]" else np.array([7, 2, 5])
+            selection = {"np[3,1]": np.array([3, 1]), "np[7,2,5]": np.array([7, 2, 5]), "np[2,0,3,1]": np.array([2, 0, 3, 1])}[selection]
         prof = _profile([0, 2])
         gen = SymFading(c)
         ch = it.call(fading.TdlChannel, [gen, prof])
@@ -398,9 +400,15 @@ def ob_native():
                 x = rr.randn(nin, N) + 1j * rr.randn(nin, N) if kind == "mimo" else rr.randn(N) + 1j * rr.randn(N)
                 # a single input stream may be handed over as a 1-D array
                 arg = x[0].copy() if (kind == "mimo" and nin == 1 and rnd == 1) else x.copy()
+                if rnd == 0:
+                    fr = Frame()
+                fr.watch(**{"signal%d" % rnd: arg})
                 out = ch.corrupt_data(arg)
                 ir = ch.get_last_impulse_response()
                 d, t = ir.tap_indexes_sparse, ir.tap_values_sparse
+                if fr.changed():
+                    return {"frame (input, or output / reported response of the previous transmission)": fr.changed(), "kind": kind}
+                fr.watch(**{"output%d" % rnd: out, "reported_taps%d" % rnd: t})
                 if list(d) != sorted(set(d.tolist())):
                     return {"delays not unique/sorted": d.tolist()}
                 if kind == "siso":
@@ -478,7 +486,8 @@ def ob_native():
         # freq on the plain TdlChannel incl. MIMO
         ch = fading.TdlChannel(mkgen(rr, case["seed"]), prof, Ts=1e-6)
         fft = 16
-        sel = [None, [0, 3, 5, 9], slice(0, 15, 2), slice(1, 16, 7)][rr.randint(4)]
+        sel = [None, [0, 3, 5, 9], slice(0, 15, 2), slice(1, 16, 7),
+               rr.permutation(fft), slice(None, None, -1), list(rr.randint(0, fft, fft))][rr.randint(7)]   # incl. full-length, not in natural order
         idx = np.arange(fft)[sel] if sel is not None else np.arange(fft)
         x = rr.randn(len(idx) * 2) + 1j * rr.randn(len(idx) * 2)
         try:
@@ -489,5 +498,103 @@ def ob_native():
         ref = np.concatenate([F[idx, b] * x[b * len(idx):(b + 1) * len(idx)] for b in range(2)])
         if (not (np.abs(out - ref).max() <= 1e-10 * max(1, np.abs(ref).max()))):
             return {"freq": repr(sel), "max error": float(np.abs(out - ref).max())}
+        return None
+    return bounded(gen(), check)
+
+
+@obligation("native/mimo_frequency_domain_and_mimo_wrappers", kind="bounded", timeout=900,
+            desc="complex128: (a) TdlChannel with Nr x Nt antennas in the FREQUENCY domain, both link directions, every selection kind: "
+                 "out[o, block] == sum_i DFT(reported response of the block)[sel, rx, tx] * x[i, block]; (b) SuMimoChannel with path loss "
+                 "incl. 0 in the time domain, both directions; (c) MuMimoChannel (2 receivers x 3 transmitters, several antennas, path-loss "
+                 "matrix with zeros): every receiver == superposition of its links' reported responses")
+def ob_native_mimo():
+    from pyphysim.channels import fading, singleuser, multiuser
+    from pyphysim.channels import fading_generators as fg
+    r = stable_rng("C03mimo")
+
+    def gen():
+        for i in range(60 if quick() else 600):
+            yield {"seed": int(r.randint(1 << 30)), "kind": ["tdlfreq", "sumimo", "mumimo"][i % 3]}
+
+    def mkprof(rr):
+        k = int(rr.randint(1, 4))
+        d = np.sort(rr.choice(np.arange(0, 6), size=k, replace=False)).astype(float)
+        return fading.TdlChannelProfile(rr.uniform(-10, 0, k), d * 1e-6)
+
+    def mkgen(rr, seed):
+        return fg.JakesSampleGenerator(float(rr.choice([0.0, 30.0, 200.0])), 1e-6, 4, None, np.random.RandomState(seed))
+
+    def check(case):
+        rr = np.random.RandomState(case["seed"])
+        prof = mkprof(rr)
+        kind = case["kind"]
+        if kind == "tdlfreq":
+            nr, nt = int(rr.randint(1, 4)), int(rr.randint(1, 4))
+            ch = fading.TdlChannel(mkgen(rr, case["seed"]), prof, Ts=1e-6)
+            ch.set_num_antennas(nr, nt)
+            ch.switched_direction = bool(rr.randint(2))
+            fft = 8
+            sel = [None, [0, 3, 5], slice(1, 8, 3), rr.permutation(fft), slice(None, None, -1)][rr.randint(5)]
+            idx = np.arange(fft)[sel] if sel is not None else np.arange(fft)
+            nin, nout = (nr, nt) if ch.switched_direction else (nt, nr)
+            nb = 2
+            x = rr.randn(nin, len(idx) * nb) + 1j * rr.randn(nin, len(idx) * nb)
+            fr = Frame(signal=x)
+            out = ch.corrupt_data_in_freq_domain(x, fft, sel)
+            if fr.changed():
+                return {"frame": fr.changed()}
+            F = ch.get_last_impulse_response().get_freq_response(fft)
+            ref = np.zeros((nout, len(idx) * nb), dtype=complex)
+            for b in range(nb):
+                blk = slice(b * len(idx), (b + 1) * len(idx))
+                for o in range(nout):
+                    for i_ in range(nin):
+                        g = F[idx, i_, o, b] if ch.switched_direction else F[idx, o, i_, b]
+                        ref[o, blk] += g * x[i_, blk]
+            if out.shape != ref.shape or (not (np.abs(out - ref).max() <= 1e-10 * max(1, np.abs(ref).max()))):
+                return {"kind": kind, "switched": bool(ch.switched_direction), "Nr": nr, "Nt": nt, "selection": repr(sel),
+                        "max error": float(np.abs(out - ref).max()) if out.shape == ref.shape else "shape %s vs %s" % (out.shape, ref.shape)}
+            return None
+        N = int(rr.randint(1, 12))
+        if kind == "sumimo":
+            na = int(rr.randint(1, 4))
+            su = singleuser.SuMimoChannel(na, mkgen(rr, case["seed"]), prof, Ts=1e-6)
+            pl = [None, 0.0, 1.0, float(rr.rand())][rr.randint(4)]
+            su.set_pathloss(pl)
+            su.switched_direction = bool(rr.randint(2))
+            x = rr.randn(na, N) + 1j * rr.randn(na, N)
+            out = su.corrupt_data(x.copy())
+            ir = su.get_last_impulse_response()
+            t, d = ir.tap_values_sparse, ir.tap_indexes_sparse
+            ref = np.zeros((na, N + int(d[-1])), dtype=complex)
+            for o in range(na):
+                for i_ in range(na):
+                    g = t[:, i_, o, :] if su.switched_direction else t[:, o, i_, :]
+                    ref[o] += _ref_conv(x[i_], g, d)
+            if out.shape != ref.shape or (not (np.abs(out - ref).max() <= 1e-10 * max(1, np.abs(ref).max()))):
+                return {"kind": kind, "pathloss": pl, "antennas": na, "switched": bool(su.switched_direction),
+                        "max error": float(np.abs(out - ref).max()) if out.shape == ref.shape else "shape"}
+            return None
+        nr, nt = int(rr.randint(1, 3)), int(rr.randint(1, 3))
+        mu = multiuser.MuMimoChannel((2, 3), nr, nt, mkgen(rr, case["seed"]), prof, Ts=1e-6)
+        PL = rr.rand(2, 3)
+        PL[rr.randint(2), rr.randint(3)] = 0.0
+        mu.set_pathloss(PL)
+        x = rr.randn(3, nt, N) + 1j * rr.randn(3, nt, N)
+        out = mu.corrupt_data(x.copy())
+        for rx in range(2):
+            ref = 0
+            for tx in range(3):
+                ir = mu.get_last_impulse_response(rx, tx)
+                t, d = ir.tap_values_sparse, ir.tap_indexes_sparse
+                link = np.zeros((nr, N + int(d[-1])), dtype=complex)
+                for o in range(nr):
+                    for i_ in range(nt):
+                        link[o] += _ref_conv(x[tx][i_], t[:, o, i_, :], d)
+                ref = ref + link
+            got = np.asarray(out[rx])
+            if got.shape != ref.shape or (not (np.abs(got - ref).max() <= 1e-10 * max(1, np.abs(ref).max()))):
+                return {"kind": kind, "receiver": rx, "Nr": nr, "Nt": nt, "pathloss": PL.tolist(),
+                        "max error": float(np.abs(got - ref).max()) if got.shape == ref.shape else "shape %s vs %s" % (got.shape, ref.shape)}
         return None
     return bounded(gen(), check)
